@@ -349,7 +349,8 @@ def kinds : List KindSpec := [
   K "Capture" [] [] ["mode", "entity"],
   K "Capture_specification::Default" [] [] ["mode"],
   K "Capture_specification::Implicit_object" [] [] ["how"],
-  K "Capture_specification::Enclosing_local" [] [] ["name", "mode", "declaration"],
+  -- `name()` is the Identifier naming the captured declaration: refused (checked view) when the declaration is named otherwise (src/impl.cxx:493-497)
+  K "Capture_specification::Enclosing_local" [L "declaration"] [("name", operandDeep 0 ".name"), ("declaration", operandSelf 0)] ["mode"],
   K "Capture_specification::Binding" [] [] ["name", "mode", "initializer"],
   K "Capture_specification::Expansion" [] [] ["what"],
   K "Substitution#elementary" [] [] [], K "Substitution#general" [] [] [],
